@@ -198,7 +198,7 @@ def u2_names(sc):
         return {1: "declone" + s, 2: "decltwo" + s, "m1": "moda", "m2": "logging"}
     if v == "suffixalias":
         return {1: "tail" + s, 2: "big_tail" + s, "m1": "moda", "m2": "modb"}
-    if v == "samemodule":
+    if v in ("samemodule", "samemoduleboth"):
         return {1: "declone" + s, 2: "decltwo" + s, "m1": "modsame" + s, "m2": "modsame" + s}
     return {1: "declone" + s, 2: "decltwo" + s, "m1": "moda", "m2": "modb"}
 
@@ -281,6 +281,8 @@ def u2_files(sc, root: str) -> dict:
             line = "import logging\n"
         if sc.get("variant") == "samemodule":      # the module as a whole
             line = f"from {'.'.join([root, sid, 'sub', 'deep'])} import {nm['m1']}\n"
+        if sc.get("variant") == "samemoduleboth":  # both modules as a whole, each under an alias of its own
+            line = f"from {'.'.join([root, sid, 'sub', 'deep'] if e['tgt'] == 1 else [root, sid, 'sub'])} import {nm['m1']} as {e['alias']}{s}\n"
         files["/".join([sid, *([other] if e["at"] == 3 else AT_PATH[e["at"]]), "__init__.py"])] += line
     return files
 
